@@ -35,6 +35,10 @@ FORMS = [
     ("if 0:\n    from pkgroot import alpha\nfrom pkgroot import zeta", ["zeta"]),
     ("for _i in range(2):\n    from pkgroot import alpha\nelse:\n    from pkgroot import zeta", ["alpha", "zeta"]),
     ("import pkgroot.alpha as A\nimport pkgroot.alpha as B\nimport pkgroot.alpha\nimport pkgroot.zeta", ["A", "B", "pkgroot"]),
+    # attributes whose value is false are attributes all the same
+    ("from pkgroot import ZERO, FLAG as f, EMPTY, NOTHING, NOLIST as nl, alpha", ["ZERO", "f", "EMPTY", "NOTHING", "nl", "alpha"]),
+    ("from pkgroot.sub import sub_zero as z, sub_empty, leaf", ["z", "sub_empty", "leaf"]),
+    ("from . import sub_zero, sub_empty as e\nfrom .. import FLAG, zeta", ["sub_zero", "e", "FLAG", "zeta"]),
 ]
 
 
